@@ -359,7 +359,13 @@ def _battery_temporal(ctx, h, S, rng, chk, full):
         widths = sorted({w for w in (tmax, tmax + 1, tmax // 2, tmax // 2 + 1, tmax // 3 + 1, 1 << (tmax.bit_length() - 1), (1 << (tmax.bit_length() - 1)) - 1,
                                      1 << (tmax.bit_length() - 2)) if w >= 1 and tmax // w + 1 <= 40})
     if not full and len(widths) > 3:
-        widths = rng.sample(widths, 3)
+        if tmax > 50:
+            # always the widths that put a realised time stamp right below a window boundary (t = k*w - 1 with w beyond 2**53:
+            # a float quotient rounds it into the next window)
+            must = [w for w in (tmax + 1, 1 << (tmax.bit_length() - 1)) if w in widths]
+            widths = must + rng.sample([w for w in widths if w not in must], min(2, len(widths) - len(must)))
+        else:
+            widths = rng.sample(widths, 3)
     for w in widths:
         agg = call(h.aggregate, w)
         if isinstance(agg, _Raised) or not isinstance(agg, dict):
